@@ -5,6 +5,7 @@ import (
 	"go/ast"
 	"go/token"
 	"go/types"
+	"golang.org/x/tools/go/packages"
 	"sort"
 	"strings"
 )
@@ -63,11 +64,12 @@ type Model struct {
 	ECS          *types.Named
 	IDGen        *types.Named
 
-	Dispatch   *Func
-	CoreArms   []Arm
-	Modules    []*ModuleInfo
-	Decorators []*types.Named
-	Leave      []*Func // functions of RealtimeHandler that call Session.RemoveParticipant
+	Dispatch      *Func
+	CoreArms      []Arm
+	TableDispatch bool // the core dispatch is a table (map / slice literal), not a switch
+	Modules       []*ModuleInfo
+	Decorators    []*types.Named
+	Leave         []*Func // functions of RealtimeHandler that call Session.RemoveParticipant
 
 	Handlers []*HandlerInfo // primary + secondary handlers with their message constants
 }
@@ -233,7 +235,38 @@ func (m *Model) findDispatch(r *Run) {
 		}
 	}
 	if best == nil || len(bestArms) < 5 {
-		r.Undecide("anchors", "core dispatch switch over hwebsocket.Msg.Type not found in package websocket")
+		// table-driven dispatch: a map / slice literal of {message type, handler}
+		if pk := p.ByPth[pkgWS]; pk != nil {
+			arms, tbl := m.tableArms(pk, isHandlerMethod, map[string]bool{pkgHagallPB: true})
+			if len(arms) >= 5 && tbl != nil {
+				// the dispatch function: the one that reads the table and consults the modules
+				for _, fn := range p.All {
+					if fn.Pkg.PkgPath != pkgWS || fn.Body == nil {
+						continue
+					}
+					uses, mods := false, false
+					ast.Inspect(fn.Body, func(n ast.Node) bool {
+						if id, ok := n.(*ast.Ident); ok && fn.Info().Uses[id] == tbl {
+							uses = true
+						}
+						if call, ok := n.(*ast.CallExpr); ok {
+							if f, ok := calleeObj(fn.Info(), call).(*types.Func); ok && f.Name() == "HandleWithModule" {
+								mods = true
+							}
+						}
+						return true
+					})
+					if uses && (mods || best == nil) {
+						best = fn
+					}
+				}
+				bestArms = arms
+				m.TableDispatch = true
+			}
+		}
+	}
+	if best == nil || len(bestArms) < 5 {
+		r.Undecide("anchors", "core dispatch (switch or table over hwebsocket.Msg.Type) not found in package websocket")
 		return
 	}
 	m.Dispatch = best
@@ -313,6 +346,17 @@ func (m *Model) findModules(r *Run) {
 						}
 						mi.Arms = append(mi.Arms, a)
 					}
+				}
+			}
+			// table-driven module dispatch
+			if len(mi.Arms) == 0 {
+				arms, _ := m.tableArms(pk, isOwn, map[string]bool{pkgHagallPB: true, pkgVikjaPB: true, pkgOdalPB: true, pkgDagazPB: true})
+				for _, a := range arms {
+					a.Module = mi
+					if a.Method != nil {
+						a.Impl = p.Funcs[a.Method]
+					}
+					mi.Arms = append(mi.Arms, a)
 				}
 			}
 			// the same written as `if <msg.Type …> == CONST { … }`
@@ -572,4 +616,110 @@ func (m *Model) String() string {
 	var sb strings.Builder
 	fmt.Fprintf(&sb, "dispatch=%s arms=%d modules=%d decorators=%d handlers=%d", m.Dispatch, len(m.CoreArms), len(m.Modules), len(m.Decorators), len(m.Handlers))
 	return sb.String()
+}
+
+// tableArms: message kinds dispatched through a table instead of a switch — a package-level (or
+// local) map or slice literal whose entries pair a message-type constant with an expression that names
+// exactly one target method (a method expression / method value, possibly wrapped in an adapter call or
+// a small closure). Returns the arms of the largest such table of the package and the table variable.
+func (m *Model) tableArms(pk *packages.Package, isTarget func(*types.Func) bool, constPkgs map[string]bool) ([]Arm, types.Object) {
+	info := pk.TypesInfo
+	var targetsIn func(x ast.Node, depth int) []*types.Func
+	targetsIn0 := func(x ast.Expr) []*types.Func { return targetsIn(x, 0) }
+	targetsIn = func(x ast.Node, depth int) []*types.Func {
+		var out []*types.Func
+		ast.Inspect(x, func(n ast.Node) bool {
+			switch v := n.(type) {
+			case *ast.SelectorExpr:
+				if sel, ok := info.Selections[v]; ok && (sel.Kind() == types.MethodExpr || sel.Kind() == types.MethodVal) {
+					if f, ok := sel.Obj().(*types.Func); ok && isTarget(f) {
+						out = append(out, f)
+					}
+				}
+			case *ast.Ident:
+				// a dedicated function of the package standing for one handler (handleParticipantJoin)
+				if f, ok := info.Uses[v].(*types.Func); ok && depth < 2 && f.Pkg() == pk.Types {
+					if def := m.P.Funcs[f]; def != nil && def.Body != nil && !isTarget(f) {
+						out = append(out, targetsIn(def.Body, depth+1)...)
+					}
+				}
+			}
+			return true
+		})
+		return out
+	}
+	msgConst := func(x ast.Expr) *types.Const {
+		c := constOf(info, x)
+		if c == nil || c.Pkg() == nil || !constPkgs[c.Pkg().Path()] {
+			return nil
+		}
+		return c
+	}
+	var best []Arm
+	var bestObj types.Object
+	for _, file := range pk.Syntax {
+		if strings.HasSuffix(pk.Fset.Position(file.Pos()).Filename, "_test.go") {
+			continue
+		}
+		ast.Inspect(file, func(n ast.Node) bool {
+			vs, ok := n.(*ast.ValueSpec)
+			var lits []*ast.CompositeLit
+			var owner types.Object
+			if ok {
+				for i, v := range vs.Values {
+					if cl, isCL := ast.Unparen(v).(*ast.CompositeLit); isCL && i < len(vs.Names) {
+						lits = append(lits, cl)
+						owner = info.Defs[vs.Names[i]]
+					}
+				}
+			} else if as, isAs := n.(*ast.AssignStmt); isAs && len(as.Lhs) == 1 && len(as.Rhs) == 1 {
+				if cl, isCL := ast.Unparen(as.Rhs[0]).(*ast.CompositeLit); isCL {
+					lits = append(lits, cl)
+					if id, ok := as.Lhs[0].(*ast.Ident); ok {
+						owner = info.Defs[id]
+						if owner == nil {
+							owner = info.Uses[id]
+						}
+					}
+				}
+			}
+			for _, cl := range lits {
+				var arms []Arm
+				for _, el := range cl.Elts {
+					var c *types.Const
+					var tg []*types.Func
+					switch e := el.(type) {
+					case *ast.KeyValueExpr: // map entry
+						c = msgConst(e.Key)
+						tg = targetsIn0(e.Value)
+					case *ast.CompositeLit: // slice of structs
+						for _, fe := range e.Elts {
+							v := fe
+							if kv, isKV := fe.(*ast.KeyValueExpr); isKV {
+								v = kv.Value
+							}
+							if cc := msgConst(v); cc != nil {
+								c = cc
+							} else {
+								tg = append(tg, targetsIn0(v)...)
+							}
+						}
+					}
+					if c == nil {
+						continue
+					}
+					a := Arm{Const: c, Clause: &ast.CaseClause{Case: el.Pos()}}
+					if len(tg) == 1 {
+						a.Method = tg[0]
+					}
+					arms = append(arms, a)
+				}
+				if len(arms) > len(best) {
+					best, bestObj = arms, owner
+				}
+			}
+			return true
+		})
+	}
+	return best, bestObj
 }
